@@ -226,7 +226,7 @@ type ArmViolation struct {
 	Want    string
 	Path    string
 	Context string
-	Indexed bool // the wrong payload is indexed (p.F[i]): a run-time panic when it is empty
+	Indexed bool // the wrong payload is indexed (p.F[i]) or dereferenced (p.F.G with F a pointer): a run-time panic
 }
 
 type ArmStats struct{ Regions, Accesses int }
@@ -254,10 +254,20 @@ func ArmViolations(p *core.Program, fn *core.FuncRef, unions []*Union) ([]ArmVio
 	}
 	// checkRegion: inside nodes, accesses path.F with F a payload not in allowed
 	checkRegion := func(nodes []ast.Stmt, path string, u *Union, consts []string, ctx string) {
+		// with several constants in one clause only a payload common to all of them is known to be set
 		allowed := map[string]bool{}
-		for _, c := range consts {
-			if f := u.Arm[c]; f != "" {
-				allowed[f] = true
+		for i, c := range consts {
+			f := u.Arm[c]
+			if i == 0 {
+				if f != "" {
+					allowed[f] = true
+				}
+				continue
+			}
+			for k := range allowed {
+				if k != f {
+					delete(allowed, k)
+				}
 			}
 		}
 		stats.Regions++
@@ -267,6 +277,16 @@ func ArmViolations(p *core.Program, fn *core.FuncRef, unions []*Union) ([]ArmVio
 				if ix, ok := n.(*ast.IndexExpr); ok {
 					if sel, ok := core.Unparen(ix.X).(*ast.SelectorExpr); ok {
 						indexed[sel] = true
+					}
+				}
+				// p.F.G where F is a pointer: a nil dereference when F is not this arm's payload
+				if outer, ok := n.(*ast.SelectorExpr); ok {
+					if sel, ok := core.Unparen(outer.X).(*ast.SelectorExpr); ok {
+						if tv, ok := info.Types[sel]; ok {
+							if _, isPtr := tv.Type.Underlying().(*types.Pointer); isPtr {
+								indexed[sel] = true
+							}
+						}
 					}
 				}
 				return true
